@@ -22,7 +22,7 @@ TolMs == 2      \* every logged time is rounded to 1 ms: a difference of two of 
 TInit == /\ l = 1 /\ viol = <<>> /\ hdr = <<>> /\ trs = <<>> /\ est = <<>> /\ prev = <<>> /\ phase = "setup"
          /\ stats = [cases |-> 0, nets |-> 0, walks |-> 0, snaps |-> 0, results_ok |-> 0, results_err |-> 0,
                      est_err |-> 0, est_panic |-> 0, skipped |-> 0, committed_unstable |-> 0, not_quiet |-> 0,
-                     auth_disagree |-> 0, opp_pairs |-> 0, follow_pairs |-> 0, lock_pairs |-> 0]
+                     auth_disagree |-> 0, waits |-> 0, opp_pairs |-> 0, follow_pairs |-> 0, lock_pairs |-> 0]
          /\ auth = <<>> /\ route = <<>> /\ pos = <<>> /\ T = <<>> /\ fixed = <<>>
 
 Names(checks) == LET F == SelectSeq(checks, LAMBDA c : ~c[2]) IN [i \in 1..Len(F) |-> F[i][1]]
@@ -69,6 +69,11 @@ AuthAgreesRec(s) ==
 CountPairs(plans, P(_, _)) ==
   Cardinality({<<t, u, a, b>> \in UNION {{<<t, u, a, b>> : a \in Windows(plans[t]), b \in Windows(plans[u])} :
                                          t \in 1..Len(plans), u \in 1..Len(plans)} : t # u /\ P(a, b)})
+\* Arrive nodes at which the train was held beyond its free-running time (a gate was binding): meets, headway holds
+Waits(plans) == Cardinality({<<t, i>> \in UNION {{<<t, i>> : i \in 2..Len(plans[t])} : t \in 1..Len(plans)} :
+                   LET a == plans[t][i-1]  b == plans[t][i] IN
+                   /\ b[1] = 1 /\ b[3] < INF /\ t <= Len(est)
+                   /\ LET e == est[t][a[4] + 1] IN b[3] - a[3] > (IF e[4] = b[4] THEN e[2] ELSE 0) + TolMs})
 Snap == /\ R.ev = "Snap"
         /\ LET s == R IN
            /\ Report(Names(<< <<"OppExclusive", OppExclusiveOf(hdr, s.plan)>>,
@@ -82,6 +87,7 @@ Snap == /\ R.ev = "Snap"
                  !.committed_unstable = @ + (IF prev = <<>> \/ CommittedStableOf(prev.plan, prev.fixed, s.plan) THEN 0 ELSE 1),
                  !.not_quiet = @ + (IF s.fixed = s.free THEN 0 ELSE 1),
                  !.auth_disagree = @ + (IF AuthAgreesRec(s) THEN 0 ELSE 1),
+                 !.waits = @ + (IF s.kind = "final" THEN Waits(s.plan) ELSE 0),
                  !.opp_pairs = @ + (IF s.kind = "final" THEN CountPairs(s.plan, LAMBDA a, b : b.link = hdr.flip[a.link]) ELSE 0),
                  !.lock_pairs = @ + (IF s.kind = "final" THEN CountPairs(s.plan, LAMBDA a, b : b.link \in RangeOf(hdr.lock[a.link])) ELSE 0),
                  !.follow_pairs = @ + (IF s.kind = "final" THEN CountPairs(s.plan, LAMBDA a, b : a.link = b.link /\ a.ae < b.ae) ELSE 0)]
